@@ -344,6 +344,23 @@ func runOne(in input, e *hlib.Emitter) {
 	}
 }
 
+// interfere parses, emits and prints other parameter lists.  A list that was parsed before
+// ("the stored parameters" of the property) must still emit and print what it declared:
+// the class suffix +stored marks the histories parse; other parses; emit/print.
+func interfere() {
+	for _, t := range []string{
+		"mandatory=alpn|port;alpn=zz|h9|q;no-default-alpn=;port=9;ipv4hint=9.9.9.9|8.8.8.8|7.7.7.7;echconfig=\"OTk5OTk5\";ipv6hint=9::9|8::8",
+		"ipv4hint=203.0.113.77;ipv6hint=fe80::7;alpn=x;port=65000;echconfig=enp6eg==",
+	} {
+		var o svcb.ParamList
+		if o.FromText([]byte(t)) == nil {
+			var b bytes.Buffer
+			o.ToWire(&b)
+			toTextSafe(&o)
+		}
+	}
+}
+
 // observe runs the implementation on one input and returns the two cases (wire, rt).
 func observe(in input) []c18case {
 	c := c18case{Class: in.class, Text: hlib.Ints(in.text), Decl: in.decl, Tt: 2, Mk: 2,
@@ -354,6 +371,9 @@ func observe(in input) []c18case {
 	var l svcb.ParamList
 	err := l.FromText(append([]byte{}, in.text...))
 	c.Ft = errCode(err)
+	if strings.HasSuffix(in.class, "+stored") {
+		interfere()
+	}
 	var wire []byte
 	if err != nil {
 		c.FtMsg = err.Error()
@@ -875,6 +895,9 @@ func run(a *hlib.Args, e *hlib.Emitter) error {
 	}
 	for _, in := range fixedInputs() {
 		runOne(in, e)
+		in.class += "+stored"
+		in.rec = nil
+		runOne(in, e)
 	}
 	for _, in := range hugeInputs() {
 		runOne(in, e)
@@ -916,16 +939,22 @@ func run(a *hlib.Args, e *hlib.Emitter) error {
 			}
 		}
 	}
+	stored := func(in input) input {
+		if r.Intn(2) == 0 {
+			in.class += "+stored"
+		}
+		return in
+	}
 	for i := 0; i < a.N; i++ {
 		switch r.Pick([]int{10, 3, 2, 6}) {
 		case 0:
-			runOne(genValid(r, randKeys(r)), e)
+			runOne(stored(genValid(r, randKeys(r))), e)
 		case 1:
-			runOne(genMandBad(r), e)
+			runOne(stored(genMandBad(r)), e)
 		case 2:
-			runOne(genDupKey(r), e)
+			runOne(stored(genDupKey(r)), e)
 		default:
-			runOne(genMalformed(r), e)
+			runOne(stored(genMalformed(r)), e)
 		}
 	}
 	return nil
